@@ -24,7 +24,7 @@ EXTENDS Core
 \* named values for the tuple-valued constants (cfg files cannot write tuples)
 D_none == <<>>       D_2 == <<2>>         D_3 == <<3>>
 D_2x2 == <<2, 2>>    D_1x3 == <<1, 3>>    D_2x3 == <<2, 3>>
-D_1x2x2 == <<1, 2, 2>>   D_2x1x2 == <<2, 1, 2>>   D_2x2x2 == <<2, 2, 2>>
+D_1x2x2 == <<1, 2, 2>>   D_2x1x2 == <<2, 1, 2>>   D_2x2x2 == <<2, 2, 2>>   D_3x3x3 == <<3, 3, 3>>
 S_none == <<>>       S_1 == <<1>>         S_2 == <<2>>
 S_11 == <<1, 1>>     S_12 == <<1, 2>>     S_23 == <<2, 3>>
 S_111 == <<1, 1, 1>> S_213 == <<2, 1, 3>>
